@@ -331,6 +331,9 @@ class _CB(flow.DefaultCB):
 
     # ---- truth of tests under flags
     def truth(self, e: ast.expr, s: St) -> bool | None:
+        fv0 = s.flag(norm(e))
+        if fv0 is not None:
+            return fv0
         if isinstance(e, ast.UnaryOp) and isinstance(e.op, ast.Not):
             v = self.truth(e.operand, s)
             return None if v is None else (not v)
